@@ -38,7 +38,12 @@ def vm_trap_set(ctx):
 
 def run(ctx):
     prog = ctx.prog
-    ev = ctx.fn(EVAL)
+    # the routine that parses, checks, encodes and executes the line: eval_inner, or eval itself where the two are one piece of code
+    # (a helper that only assembles is written into its caller by the inliner)
+    if EVAL not in prog.fns and "lace::debugger::eval::eval" in prog.fns and any(c == EXEC for b, t, c in prog.fns["lace::debugger::eval::eval"].calls()):
+        ev = ctx.fn("lace::debugger::eval::eval")
+    else:
+        ev = ctx.fn(EVAL)
     exs = [b for b, t, c in ev.calls() if c == EXEC]
     ctx.need(len(exs) == 1, "one execute call in eval")
     E = exs[0]
@@ -113,6 +118,38 @@ def run(ctx):
     # the executed word is emit's result
     e = ev.expr(ev.term(E)["args"][1], 10)
     ok = any(c == EMIT for c in kit.expr_calls(e))
+    if not ok:
+        # the word travels through a result that is built in several places (`Ok(Some(word))` on the success path, `Ok(None)` / the
+        # re-raised error elsewhere): every place that can supply the payload which is executed must supply emit's result
+        def resolve(x, depth=0):
+            x = kit.strip_refs(x)
+            if depth > 8:
+                return [x]
+            if x[0] == "field" and str(x[2]) == "0" and x[1][0] == "downcast":
+                out_ = []
+                for c_ in resolve(x[1][1], depth + 1):
+                    c_ = kit.strip_refs(c_)
+                    if c_[0] == "agg" and c_[1][0] == "adt" and c_[1][2] == x[1][2] and len(c_[2]) == 1:
+                        out_ += resolve(c_[2][0], depth + 1)
+                    elif c_[0] == "agg" and c_[1][0] == "adt":
+                        continue          # another variant: it cannot be the one whose payload is taken
+                    elif c_[0] == "call" and kit.is_from_residual(str(c_[1])):
+                        continue          # the re-raised error / None
+                    else:
+                        out_.append(("field", ("downcast", c_, x[1][2]), "0"))          # the payload of a call's result: as it stands
+                return out_
+            if x[0] == "local" and len(ev.defs().get(x[1], [])) > 1:
+                out_ = []
+                for d_ in ev.defs()[x[1]]:
+                    if d_[0] == "stmt":
+                        out_ += resolve(ev.rvalue_expr(d_[3]["r"], 10), depth + 1)
+                    elif d_[0] == "call":
+                        out_.append(("call", callee_of(d_[3]) or "<indirect>", tuple(ev.expr(a_, 6) for a_ in d_[3]["args"])))
+                return out_
+            return [x]
+        cands = resolve(e)
+        ctx.note("executed word resolved through %d place(s): %s" % (len(cands), [expr_str(c_, 50) for c_ in cands][:6]))
+        ok = bool(cands) and all(any(c == EMIT for c in kit.expr_calls(c_)) for c_ in cands)
     ctx.oblig(ok, {"executed word": expr_str(e, 100)}, "the result of emit")
     if not ok:
         ctx.violation("executed-word", sp_file_line(ev.term(E).get("sp")), "eval executes `%s`, which is not the word produced by AsmLine::emit" % expr_str(e, 100))
@@ -229,8 +266,14 @@ def run(ctx):
                           % (short(n), " -> ".join(short(x) for x in p or [])))
     # eval's caller prints the error and carries on
     errs = [b for b, t, c in evw.calls() if c == EVAL]
-    ctx.need(errs, "eval -> eval_inner")
-    ok = kit.result_is_consumed(evw, errs[0])
+    if ev is evw:
+        # one piece of code: the assembling part's failures end in the report on stderr
+        errs = [b for b, t, c in evw.calls() if c and c.endswith("std::io::stdio::_eprint")]
+        ctx.need(errs, "error report in eval")
+        ok = True
+    else:
+        ctx.need(errs, "eval -> eval_inner")
+        ok = kit.result_is_consumed(evw, errs[0])
     ctx.oblig(ok, {"eval_inner result": "inspected by eval"}, "if let Err(..) => report")
     if not ok:
         ctx.violation("eval-result-dropped", sp_file_line(evw.term(errs[0]).get("sp")), "eval drops eval_inner's error without reporting it")
